@@ -129,3 +129,37 @@ fn witness_c10_repetition_at_ply_four_with_warm_table() {
     assert!(matches!(s, Score::Centipawn { score } if score < -300) || matches!(s, Score::Mate { .. }), "probe position is not lost without the repetition: {:?}", s);
     assert_eq!(bad, 0);
 }
+
+/// an earlier `go` in the same game must not leave table entries behind that stand in for a line which now completes a
+/// repetition: search a position once, come back to it by reversible moves, then ask about the move that reaches the third
+/// occurrence
+#[test]
+fn witness_c10_repetition_after_an_earlier_search_of_the_same_position() {
+    let fen = "4k3/8/8/8/8/8/3Q4/4K3 w - - 0 30";
+    let (tx, rx) = channel();
+    let mut engine = Engine::new(Arc::new(CommandUciTx::new(tx)), false);
+    engine.accept(UciCommand::UciNewGame);
+    let mv = |s: &str| UciMove::parse(s).unwrap();
+    // first occurrence of the position after e1e2 e8e7 e2e1: searched to depth 3
+    engine.accept(UciCommand::PositionFrom { fen: Fen::from_str(fen).unwrap(), moves: ["e1e2", "e8e7", "e2e1"].iter().map(|s| mv(s)).collect() });
+    engine.accept(UciCommand::Go { go: Go { depth: Some(3), ..Go::default() } });
+    while let Ok(c) = rx.recv() { if let UciTxCommand::BestMove { .. } = c { break; } }
+    // the game goes on by reversible moves; e7e8 now reaches the root position for the third time
+    let line = ["e1e2", "e8e7", "e2e1", "e7e8", "e1e2", "e8e7", "e2e1"];
+    engine.accept(UciCommand::PositionFrom { fen: Fen::from_str(fen).unwrap(), moves: line.iter().map(|s| mv(s)).collect() });
+    engine.accept(UciCommand::Go { go: Go { depth: Some(1), search_moves: vec![mv("e7e8")], ..Go::default() } });
+    let mut last = None;
+    while let Ok(c) = rx.recv() {
+        match c {
+            UciTxCommand::Info { info } => { if info.score.is_some() { last = info.score; } }
+            UciTxCommand::BestMove { .. } => break,
+            _ => {}
+        }
+    }
+    engine.accept(UciCommand::Quit);
+    let s = last.expect("no score");
+    if !is_draw(&s) {
+        println!("FAILING-INPUT: fen={:?}: after `go depth 3` on the position after [e1e2 e8e7 e2e1], the game {:?} + e7e8 (third occurrence) is valued {:?}, expected +-50cp", fen, line, s);
+        panic!("repetition hidden by an entry of an earlier search");
+    }
+}
